@@ -33,22 +33,25 @@ META = {
         "rows, its NOAZI row and offsets (mm x 1e-3) its own; grids follow DAZI and ZEN1/ZEN2/DZEN for any step; validity dates "
         "are the printed date plus the printed seconds; ignorable lines (comments, unknown labels, blank lines) never matter; "
         "duplicate antenna/validity keys are refused, distinct ones each appear once; reading the rendering of any well-formed "
-        "file model gives back exactly that model. Each quirk of the current code is refuted by a computed witness. The "
+        "file model gives back exactly that model - for the standard's table and, by a coverage theorem, for the table "
+        "re-read from the source (any table whose slots contain the standard's columns and touch no other field reads "
+        "rendered files alike); FREQ RMS sections never reach the result. Each quirk is refuted by a computed witness. The "
         "label/field table, lambdas and unit constant are re-read from /repo on every run; every generated file is also read "
         "by the model with that table inside Coq and compared with midgard's result and with the writer's ground truth."),
     "level_note": (
         "Trusted: Coq kernel + vm_compute; the hand-written model of the parse methods (validated by the correspondence); "
         "the reflection code and the independent ANTEX writer in harness/drivers/c15.py; Python float() is taken to return "
-        "the double nearest to the printed decimal; satellites without VALID FROM, individually calibrated receiver antennas "
-        "of one type, and value fields filling all 8 columns are outside the domain."),
+        "the double nearest to the printed decimal; individually calibrated receiver antennas of one type and value "
+        "fields filling all 8 columns are outside the domain."),
 }
 
 THEOREMS = [
     "antex_fields_wf", "antex_lambdas_probe", "comments_ignored", "antex_file_roundtrip",
+    "gen_table_reads_like_std", "antex_file_roundtrip_gen",
     "antex_file_roundtrip_with_comments", "frequency_section_spec", "frequency_pattern_shape", "grid_spec",
     "valid_from_until_spec", "calendar", "unique_keys", "duplicate_validity_refused", "pi_bracket",
     "c15_azi_accumulates_refuted", "c15_azi_strings_refuted", "c15_seconds_as_days_refuted",
-    "c15_grid_count_float_refuted",
+    "c15_grid_count_float_refuted", "c15_sat_without_valid_from_refuted",
 ]
 
 REQ = "From Verif Require Import Lib.Dyadic Lib.Text Model.C15_Antex Model.C15_Check."
@@ -61,6 +64,9 @@ QUIRKS = {
         "AntexParser stores the azimuth-dependent rows as split strings: 'azi' is an array of str, not of numbers"),
     4: ("c15_seconds_as_days",
         "AntexParser adds the seconds of VALID FROM / VALID UNTIL as days (timedelta(float(second)))"),
+    16: ("c15_sat_without_valid_from",
+         "AntexParser.save_correction fails with UnboundLocalError ('dt') for a satellite antenna block without the optional "
+         "VALID FROM record"),
     8: ("c15_grid_count_float",
         "AntexParser builds the zenith/azimuth grid with numpy.arange on a floating-point step: for steps like 0.1 the grid has one point more than the pattern has columns"),
 }
@@ -230,6 +236,9 @@ def gen_file_model(rng, big_ok=True):
     used_sat = {}
     prns = [f"{s}{n:02d}" for s in "GREC" for n in (1, 2, 13)]
     rows_budget = 110
+    no_from = set()
+    no_from_ok = rng.random() < 0.2        # one file in five may contain a satellite block without VALID FROM
+    with_rms = rng.random() < 0.15
     for _ in range(n_ant):
         is_sat = rng.random() < 0.5
         a = {}
@@ -239,15 +248,22 @@ def gen_file_model(rng, big_ok=True):
             a["type"], a["serial"] = typ, prn
             a["sat"] = f"{svn}{rng.randrange(10, 99)}"
             a["cospar"] = f"{rng.randrange(1990, 2025)}-{rng.randrange(1, 100):03d}{rng.choice('ABC')}"
-            # several validity periods per PRN: distinct VALID FROM
-            while True:
-                vf = gen_date(rng)
-                if date_us(vf) // 10 not in {x // 10 + k for x in used_sat.get(prn, set()) for k in (-1, 0, 1)}:
-                    break
-            used_sat.setdefault(prn, set()).add(date_us(vf))
-            a["from"] = vf
-            r = rng.random()
-            a["until"] = None if r < 0.3 else gen_date(rng, int(vf[0]), 2040)
+            # several validity periods per PRN: distinct VALID FROM; the record is optional (at most one block per PRN
+            # without it: validity from the beginning)
+            if no_from_ok and prn not in no_from and rng.random() < 0.5:
+                no_from.add(prn)
+                no_from_ok = False
+                a["from"] = None
+                a["until"] = None if rng.random() < 0.5 else gen_date(rng)
+            else:
+                while True:
+                    vf = gen_date(rng)
+                    if date_us(vf) // 10 not in {x // 10 + k for x in used_sat.get(prn, set()) for k in (-1, 0, 1)}:
+                        break
+                used_sat.setdefault(prn, set()).add(date_us(vf))
+                a["from"] = vf
+                r = rng.random()
+                a["until"] = None if r < 0.3 else gen_date(rng, int(vf[0]), 2040)
         else:
             cand = [t for t in RECV if t not in used_recv]
             if not cand:
@@ -287,6 +303,13 @@ def gen_file_model(rng, big_ok=True):
             for k in range(n_az):
                 f["rows"].append((fmt1(k * dazi10), [gen_value(rng) for _ in range(nz)]))
             a["freqs"].append(f)
+        # FREQ RMS sections (standard deviations; same layout, never part of the result) after the frequency sections
+        a["rms"] = []
+        if with_rms and n_freq * n_az * 2 <= 120:
+            for code in codes[: rng.randrange(1, n_freq + 1)]:
+                a["rms"].append({"code": code, "neu": [gen_offset(rng) for _ in range(3)],
+                                 "noazi": [gen_value(rng) for _ in range(nz)],
+                                 "rows": [(fmt1(k * dazi10), [gen_value(rng) for _ in range(nz)]) for k in range(n_az)]})
         ants.append(a)
     if not ants:
         return gen_file_model(rng)
@@ -304,7 +327,7 @@ def comment(rng, pad):
     return lab(text, "COMMENT", pad)
 
 
-def render(rng, ants, decor=True, rms=False):
+def render(rng, ants, decor=True):
     """ANTEX 1.4 text of the model (fixed-column layout of the standard) with optional lines a reader must ignore"""
     pad = decor and rng.random() < 0.6
     L = []
@@ -347,14 +370,14 @@ def render(rng, ants, decor=True, rms=False):
                 L.append(az.rjust(8) + "".join(x.rjust(8) for x in vals))
             L.append(lab("   " + f["code"].ljust(3), "END OF FREQUENCY", pad))
             deco(0.08)
-        if rms:
-            for f in a["freqs"]:
-                L.append(lab("   " + f["code"].ljust(3), "START OF FREQ RMS", pad))
-                L.append(lab("".join(gen_offset(rng).rjust(10) for _ in range(3)), "NORTH / EAST / UP", pad))
-                L.append("   NOAZI" + "".join("    0.10" for _ in f["noazi"]))
-                for az, vals in f["rows"]:
-                    L.append(az.rjust(8) + "".join("    0.20" for _ in vals))
-                L.append(lab("   " + f["code"].ljust(3), "END OF FREQ RMS", pad))
+        for f in a["rms"]:
+            L.append(lab("   " + f["code"].ljust(3), "START OF FREQ RMS", pad))
+            L.append(lab("".join(x.rjust(10) for x in f["neu"]), "NORTH / EAST / UP", pad))
+            deco(0.08)
+            L.append("   NOAZI" + "".join(x.rjust(8) for x in f["noazi"]))
+            for az, vals in f["rows"]:
+                L.append(az.rjust(8) + "".join(x.rjust(8) for x in vals))
+            L.append(lab("   " + f["code"].ljust(3), "END OF FREQ RMS", pad))
         L.append(lab("", "END OF ANTENNA", pad))
     deco()
     return L
@@ -436,18 +459,21 @@ def lines_term(lines):
 
 def model_term(ants):
     out = []
-    for a in ants:
+    def freq_terms(fl):
         fs = []
-        for f in a["freqs"]:
+        for f in fl:
             rows = emit.lst(emit.pair(emit.s(az), emit.lst(emit.s(x) for x in vals)) for az, vals in f["rows"])
             fs.append(f"(Build_freq_m {emit.s(f['code'])} {emit.s(f['neu'][0])} {emit.s(f['neu'][1])} {emit.s(f['neu'][2])} "
                       f"{emit.lst(emit.s(x) for x in f['noazi'])} {rows})")
+        return emit.lst(fs)
+
+    for a in ants:
 
         def date(t):
             return emit.opt(None if t is None else emit.lst(emit.s(x) for x in t))
         out.append(f"(Build_ant_m {emit.s(a['type'])} {emit.s(a['serial'])} {emit.s(a['sat'])} {emit.s(a['cospar'])} "
                    f"{emit.s(a['dazi'])} {emit.s(a['zen1'])} {emit.s(a['zen2'])} {emit.s(a['dzen'])} {emit.s(a['nfreq'])} "
-                   f"{date(a['from'])} {date(a['until'])} {emit.lst(fs)})")
+                   f"{date(a['from'])} {date(a['until'])} {freq_terms(a['freqs'])} {freq_terms(a['rms'])})")
     return emit.lst(out)
 
 
@@ -462,7 +488,7 @@ def file_case(ctx, lines, name):
 
 # ============================================================================= the run
 def mask_names(k):
-    return [QUIRKS[b][0] for b in (1, 2, 4, 8) if k & b]
+    return [QUIRKS[b][0] for b in (1, 2, 4, 8, 16) if k & b]
 
 
 def run(ctx):
@@ -487,17 +513,19 @@ def run(ctx):
         ctx.case(("example",), nontrivial=True, sample=dict(kind="example_file", observed=summary))
     for i in range(n_files):
         ants = gen_file_model(rng)
-        rms = rng.random() < 0.08
+        rms = any(a["rms"] for a in ants)
         decor = rng.random() < 0.85
-        lines = render(rng, ants, decor=decor, rms=rms)
+        lines = render(rng, ants, decor=decor)
         term, summary = file_case(ctx, lines, f"f{i:05d}.atx")
         cases.append(term)
-        truths.append(None if rms else emit.pair(model_term(ants), lines_term(lines)))
+        truths.append(emit.pair(model_term(ants), lines_term(lines)))
         metas.append(dict(kind="generated_file", index=i, lines=lines, observed=summary, rms_sections=rms,
                           how="write the lines to a file; midgard.parsers.parse_file('antex', path).as_dict()"))
         nf = max(len(a["freqs"]) for a in ants)
         ctx.count(f"antennas:{len(ants)}")
         ctx.count(f"max_freqs:{nf}")
+        if rms:
+            ctx.count("file:with_freq_rms_sections")
         for a in ants:
             ctx.count(f"dazi:{a['dazi']}")
             ctx.count("kind:" + ("satellite" if a["sat"] else "receiver"))
@@ -526,7 +554,7 @@ def run(ctx):
             if v == 0:
                 continue
             if v >= 16:
-                for b in (1, 2, 4, 8):
+                for b in (1, 2, 4, 8, 16):
                     if (v - 16) & b:
                         ctx.count("quirk:" + QUIRKS[b][0])
                         ctx.finding(QUIRKS[b][0], QUIRKS[b][1], dict(rep, verdict=v, quirks=mask_names(v - 16)))
@@ -553,7 +581,7 @@ def run(ctx):
         "Python float()/int() return the correctly rounded / exact value of a decimal numeral",
     ]
     ctx.assume += [
-        "satellite antennas carry VALID FROM (without it save_correction fails with UnboundLocalError)",
+        "a satellite block without VALID FROM is valid from datetime.min (at most one such block per PRN)",
         "receiver antenna types are unique in a file (the parser keys receivers by type only)",
         "correction values are separated by at least one blank (at most 7 characters in an F8.2 field)",
         "valid_until absent = the time of parsing (checked to lie between start and end of the parse)",
@@ -562,8 +590,8 @@ def run(ctx):
         level="proof",
         rule=("the repository's example + files from an independent writer: 1..6 antennas (receiver/satellite mixed, several "
               "validity periods per PRN), 1..5 frequencies, DAZI in {0,5,10,30,90}, zenith grids with steps 0.1..30 and 1..19 "
-              "points, VALID FROM/UNTIL with 0 / 59.9999999 / random seconds or absent, comments/blank lines/unknown records "
-              "anywhere, padded or unpadded lines, optional FREQ RMS sections; distinct_nontrivial = distinct files with >= 2 "
+              "points, VALID FROM/UNTIL with 0 / 59.9999999 / random seconds or absent (also for satellites), comments/blank "
+              "lines/unknown records anywhere, padded or unpadded lines, FREQ RMS sections (with ground truth); distinct_nontrivial = distinct files with >= 2 "
               "antennas or >= 2 frequencies"),
     )
 
